@@ -59,7 +59,7 @@ func c05Sources(env *core.Env) []string {
 		// same fractional-hour offset at different precisions, crossing an hour/day boundary once shifted to UTC
 		"@2020-01-01T23+05:30", "@2020-01-01T23:40+05:30", "@2020-01-01T23:40:10+05:30", "@2020-01-01T00-03:30", "@2020-01-01T00:45-03:30", "@2020-01-01T00:15:00.000-03:30",
 		"@T10", "@T10:30", "@T10:30:00", "@T10:30:00.000", "@T10:30:00.5", "@T11", "@T10:31", "@T00:00:00", "@T23:59:59.999",
-		"1 'mg'", "2 'mg'", "1.0 'mg'", "1 'kg'", "1 year", "1 years", "2 years", "12 months", "1 'a'", "7 days", "1 week", "1 'wk'", "0 'mg'", "1 '1'",
+		"1 'mg'", "2 'mg'", "1.0 'mg'", "1 'kg'", "1 year", "1 years", "2 years", "12 months", "1 'a'", "7 days", "1 week", "1 'wk'", "0 'mg'", "1 '1'", "5 'g'", "5 'gs'", "6 'g'", "5 'lb'", "5 'lbs'",
 		"{}",
 	}
 	if !env.Quick() {
